@@ -504,6 +504,11 @@ def nt_c02(lhs, impl):
     f = lhs.split(" ")
     if f[0] in ("derkey", "derroute"):
         return nt_derkey(lhs, impl)
+    if f[0] == "sshblob":
+        g = f[f.index("G") + 1:]
+        n = len(f[1]) // 2 if f[1] != "-" else 0
+        bits = (len(g[2]) * 4) % 8 if g and g[0] == "rsa" and len(g) > 2 and g[2] != "-" else -1
+        return ("sshblob", g[0] if g else "-", bits, min(n, 40) if (not g or g[0] == "-") else n // 64, impl[:3])
     g = f[f.index("G"):]
     alg = g[1]
     param = _hexbytes(g[2]).decode("latin1")
